@@ -28,7 +28,7 @@ def main():
         picks = [combos[(k * 5 + j * 7 + run.seed) % len(combos)] for j in range(per)]
         for (src, pas, srt, th) in picks:
             c = {"kind": b["kind"], "items": b["items"], "NC": b["NC"], "L": b["L"], "source": src, "pass": pas, "sorted": srt,
-                 "threads": th, "ips": 1 + (k % 2), "zooms": [2] if k % 3 else [2, 4], "mshape": (k // 2) % 7}
+                 "threads": th, "ips": 1 + (k % 2), "zooms": [2] if k % 3 else [2, 4], "mshape": (k // 2) % 8}
             cases.append(c)
     obs = run_harness("refuse", cases, run.wd, hang_timeout=6, max_hangs=3)
     obs = [o for o in obs if o["obs"].get("result") not in ("na",)]
